@@ -1,6 +1,6 @@
 SPECIFICATION SchedSpec
-CONSTANTS NS = 2
-          NC = 3
+CONSTANTS NS = 3
+          NC = 2
           CapMod = 2
           MaxSends = 1
           MaxSubs = 1
